@@ -906,12 +906,13 @@ class Executor:
             self.loop_ordinals[id(new)] = ordinal
             return self._loop(new, st, k, start_override)
         if kind == "for" and isinstance(n.iter, ast.Call) and isinstance(n.iter.func, ast.Name) and n.iter.func.id == "enumerate" \
-                and isinstance(n.target, ast.Tuple) and len(n.target.elts) == 2 and all(isinstance(e, ast.Name) for e in n.target.elts) \
+                and isinstance(n.target, ast.Tuple) and len(n.target.elts) == 2 and isinstance(n.target.elts[0], ast.Name) \
+                and (isinstance(n.target.elts[1], ast.Name) or (isinstance(n.target.elts[1], ast.Tuple) and all(isinstance(e, ast.Name) for e in n.target.elts[1].elts))) \
                 and 1 <= len(n.iter.args) <= 2 and not n.iter.keywords:
             # for i, x in enumerate(SEQ, k): body   ==>   for __zi in range(len(SEQ)): i = k + __zi; x = SEQ[__zi]; body
             seq = ast.unparse(n.iter.args[0])
             k0 = ast.unparse(n.iter.args[1]) if len(n.iter.args) == 2 else "0"
-            src = f"for __zi in range(len({seq})):\n    {n.target.elts[0].id} = ({k0}) + __zi\n    {n.target.elts[1].id} = ({seq})[__zi]\n    pass\n"
+            src = f"for __zi in range(len({seq})):\n    {n.target.elts[0].id} = ({k0}) + __zi\n    {ast.unparse(n.target.elts[1])} = ({seq})[__zi]\n    pass\n"
             new = ast.parse(src).body[0]
             for x in ast.walk(new):
                 x.lineno = n.lineno
@@ -1893,7 +1894,7 @@ def _dotted(n):
 
 MODULE_ALIASES = {"np", "config", "math", "torch", "struct", "warnings", "os", "sys", "fftpack", "io", "re", "soundfile", "wave", "h5py"}
 BUILTIN_NAMES = {"len", "min", "max", "int", "float", "bool", "abs", "range", "isinstance", "tuple", "list", "sum",
-                 "forall", "exists", "implies", "old", "ite", "count", "enumerate", "slice"}
+                 "forall", "exists", "implies", "old", "ite", "count", "enumerate", "slice", "zip"}
 
 
 class Builtin:
@@ -2035,6 +2036,14 @@ def Executor_call_builtin(self, name, st, args, kwargs, node, ev):
     if name == "count" and len(args) <= 1:
         k0 = Z(args[0]) if args else z3.IntVal(0)
         return SeqVal(None, lambda i: simp(k0 + Z(i)))  # itertools.count: unbounded
+    if name == "zip":
+        # zip as a VALUE (for-headers are handled syntactically): symbolic sequences -> the sequence of tuples, as long as the shortest
+        if args and not kwargs and all(isinstance(a, SeqVal) and a.n is not None for a in args):
+            seqs = list(args)
+            return SeqVal(_minmax("min", [s_.n for s_ in seqs]) if len(seqs) > 1 else seqs[0].n, lambda i: tuple(s_.getter(simp(Z(i))) for s_ in seqs))
+        if args and not kwargs and all(isinstance(a, (tuple, list)) for a in args):
+            return [tuple(x) for x in zip(*args)]
+        raise Outside("zip of values that are not all sequences of one kind")
     if name in ("tuple", "list") and len(args) == 1 and isinstance(args[0], SeqVal):
         return args[0]
     if name == "tuple" and len(args) == 1 and isinstance(args[0], (tuple, list)):
